@@ -1480,6 +1480,25 @@ pub fn gen_plan(focus: &str, seed: u64, thorough: bool, pool: &[Pos]) -> EngineP
         cycles.push(Cycle { newgame: ci == 0 || rng.chance(1, 4), pos, pre_lines, go, ns_per_node, gap_ns: rng.below(5_000_000_000), jumps, stop_before_dequeue, events, post_lines });
         have_best = true;
     }
+    if focus == "C09" && rng.chance(1, 3) {
+        // interrupted search followed by `go depth 1` without position, on a position whose history
+        // lets the weaker side force a repetition draw: the follow-up must still see that history
+        let imb: Vec<Pos> = pool.iter().filter(|p| (material(p, true) - material(p, false)).abs() >= 3 && p.has_legal_move()).cloned().collect();
+        if let Some(g) = repetition_game(&mut rng, &imb) {
+            let mut go = GoSpec::none();
+            go.infinite = true;
+            go.layout = rng.next_u64();
+            let at = *rng.pick(&[512u64, 700, 1500, 4000, 12_000]) + rng.below(400);
+            let quiet = |pos: PosSpec, go: GoSpec, events: Vec<Ev>| Cycle { newgame: false, pos, pre_lines: vec![], go, ns_per_node: 1000, gap_ns: 1_000_000, jumps: vec![], stop_before_dequeue: false, events, post_lines: vec![] };
+            cycles.push(quiet(PosSpec::Set { fen: g.fen.clone(), moves: g.moves.clone() }, go, vec![Ev { at_node: at, lines: vec!["stop".to_string()] }]));
+            let mut d1 = GoSpec::depth(1);
+            d1.layout = rng.next_u64();
+            cycles.push(quiet(PosSpec::Keep, d1, vec![]));
+            let mut d2 = GoSpec::depth(2);
+            d2.layout = rng.next_u64();
+            cycles.push(quiet(PosSpec::Keep, d2, vec![]));
+        }
+    }
     // sometimes quit in the middle of the last search
     if !fault_free && rng.chance(1, 6) {
         if let Some(last) = cycles.last_mut() {
